@@ -90,6 +90,24 @@ CHECKS = {
             F("FuzzC15Unmarshal", "60s"),
         ],
     },
+    "C16": {
+        "pkg": "c16", "level": "exploration",
+        "manifest": {
+            "text": "differential against crypto/x509 on certificates produced by a conforming encoder (and their NULL-less rewrites), robustness under structured DER mutations and native fuzzing, PEM bundle construction with a known answer, and a reference rendering for the device serial; value lengths 0..8 enumerated",
+            "note": "crypto/x509 is the reference decoder; agreement is demanded only on encoder-produced certificates (the lenient parser may accept more); mutated inputs are judged for crashes and for ModHex consistency only",
+            "technique": "property-based testing (rapid) + native fuzzing; oracle = differential vs crypto/x509, constructed bundles, reference ModHex",
+        },
+        "assumptions": ["x509.CreateCertificate is a conforming encoder", "PEM text between blocks contains no dash sequences"],
+        "subchecks": [
+            R("TestC16ParseAgree", 1500, 8000),
+            R("TestC16Mutations", 15000, 100000),
+            R("TestC16ModHex", 5000, 50000, ts=4),
+            E("TestC16ModHexLengths"),
+            R("TestC16PEM", 3000, 20000, ts=8),
+            F("FuzzC16Parse", "90s"),
+            F("FuzzC16PEM", "45s"),
+        ],
+    },
     "C19": {
         "pkg": "c19", "level": "exploration",
         "manifest": {
